@@ -312,7 +312,7 @@ impl Prop for C12 {
                     gen: enum_lists,
                 },
             },
-            Stage { name: "random", kind: StageKind::Random { strategy: strat, cases: tier.pick(400_000, 5_000_000) } },
+            Stage { name: "random", kind: StageKind::Random { strategy: strat, cases: tier.pick(1_000_000, 6_000_000) } },
         ]
     }
     fn check(case: &Case, obs: &mut Obs) -> Verdict {
